@@ -13,7 +13,10 @@ import DymVerif.Model.Lockup
     begin <dt>
     end
 
-  Observation = `<out> L=… last=… M=… B=… Q=… A=… t=… h=…` (see `render`).
+  Observation = `<out> L=… last=… M=… B=… Q=… A=… S=… W=… O=… U=… t=… h=…` (see `render`):
+  locks (by-id queries), last id, module balances, actor balances, lock ids by account, accumulation
+  at the probe durations, Σ locks per denom, Σ locks per denom with duration >= probe, Σ locks per
+  owner and denom, ids of the locks that are due now.
 -/
 namespace DymVerif.Driver.C14
 open DymVerif DymVerif.Driver DymVerif.Lockup
@@ -61,7 +64,12 @@ def render (x : St) (o : Out) : String :=
   let B := join ";" (acts.map (fun a => join "," (dens.map (fun d => toString (s.bal a d)))))
   let Q := join ";" (acts.map (fun a => join "." ((s.locks.filter (fun l => l.owner == a)).map (fun l => toString l.id))))
   let A := join ";" (dens.map (fun d => join "," (x.probes.map (fun k => toString (accQuery s.acc d k)))))
-  s!"{outStr o} L={L} last={s.lastId} M={M} B={B} Q={Q} A={A} t={s.now} h={s.height}"
+  -- the sums the theorems are stated with, compared with the harness's own sums over the stored locks
+  let S := join "," (dens.map (fun d => toString (lockedDenom s.locks d)))
+  let W := join ";" (dens.map (fun d => join "," (x.probes.map (fun k => toString (lockedLonger s.locks d k)))))
+  let O := join ";" (acts.map (fun a => join "," (dens.map (fun d => toString (lockedOwner s.locks a d)))))
+  let U := join "." ((s.locks.filter (matured s.now)).map (fun l => toString l.id))
+  s!"{outStr o} L={L} last={s.lastId} M={M} B={B} Q={Q} A={A} S={S} W={W} O={O} U={U} t={s.now} h={s.height}"
 
 def coinArg (f : List String) : Option (Option (Denom × Nat)) :=
   match f with
